@@ -268,6 +268,11 @@ def run(ctx):
 
                 case["hist"] = gen_probe_history(r)
                 ctx.feat("feature:serialized-mid-history")
+            elif (i // 4) % 3 == 1:
+                from vf.gen.histories import gen_sparse_history
+
+                case["hist"] = gen_sparse_history(r)
+                ctx.feat("feature:sparse-survivors")
             if r.random() < 0.3:
                 case["md"] = gen_md(r)
         if mode == "attr-rich":
